@@ -112,6 +112,10 @@ impl<'a> Reader<'a> {
         if self.begin == self.end {
             self.refill();
         }
+        if self.begin == self.end {
+            // end of input: there is no byte to look at (do not expose stale buffer contents)
+            return 0;
+        }
         self.buf[self.begin]
     }
 }
